@@ -80,7 +80,7 @@ Fixpoint rt_ok_n (w : bool) (t : gty) (m : nmask) (v : gval) {struct v} : bool :
 Fixpoint acc_ok_n (w : bool) (t : gty) (m : nmask) (v : gval) {struct v} : bool :=
   match v with
   | GVInt z => match t with GInt KUint | GInt KUint64 => z <? two63 | _ => true end
-  | GVFloat b => f_finite b
+  | GVFloat b => match t with GFloat32 => f_finite b | _ => true end
   | GVSlice None => exact m && w && (fast_slice_elem (elem_ty t) || is_u8 (elem_ty t))
   | GVSlice (Some es) => forallb (acc_ok_n true (elem_ty t) (nm_nth 0 m)) es
   | GVMap None => exact m && w && fast_map (key_ty t) (elem_ty t)
